@@ -45,7 +45,7 @@ func runC16(c *core.Ctx) {
 		c.Count("obs:scribble-returned", 1)
 	}
 	// (d) GetSortedValues / GetSortedValuesFunc
-	for _, ci := range []int{-1, r.Intn(3), r.Intn(3)} {
+	for _, ci := range []int{-1, r.Intn(4), r.Intn(4)} {
 		before, bw := observeAll(d)
 		name, got, sortedOK, perm := d.SortedBy(ci)
 		c.Begin(kind, name)
